@@ -44,7 +44,9 @@ CHECKS = {
          'the regenerated table) shows each batched string is the lift of its plain partner, hence batched_einsums_slicewise for '
          'all of them; pairs_complete / unpaired_from_source pin the table itself; (3) the refinement specification (a batch '
          'tensor is the list of its elements; elem_add/elem_mul/elem_getitem; C02/C03 theorems transfer) and the list of '
-         'functions that reject batch tensors, also re-extracted. Correspondence: the einsum evaluator against torch.einsum on '
+         'functions that reject batch tensors, also re-extracted; (4) FOURTH EXTENSION, the scalar clause (Model/BatchScalar: smulB, saddB, negB, '
+         'ssubB, rsubB following the batch paths of __mul__/__add__/__neg__/__sub__/__rsub__): elem_smul / elem_sadd / elem_neg (element b of the '
+         'result IS the ordinary operation on element b), *_length (no element dropped or added), *_dense, *_wf; battery c18_batch_scalar. Correspondence: the einsum evaluator against torch.einsum on '
          'every equation string of the source; every batch element of +, * and indexing results core-for-core against the '
          'non-batch Lean model; torch(), construction, scalar ops, rounding, orthogonalisation, batch-mode selection element by '
          'element against the ordinary operation; guarded functions must raise.',
@@ -161,13 +163,17 @@ CHECKS = {
          "hence the tensor, unchanged; the new core's unfolding IS the kernel's Q (orthonormal by the contract QᵀQ = I); lifting to any "
          "position mu; at sweep level (any number of modes): orthogonalize(N-1) leaves the dense array unchanged (orthogonalize_dense), "
          "leaves every core but the last left-orthonormal with chained ranks (orthogonalize_gauge), keeps shape and boundary ranks, and "
-         "the norm is then carried by the last core (norm_carried_by_last). The model is fed with the QR answers recorded in-process from torch.linalg.qr and reproduces the implementation's "
+         "the norm is then carried by the last core (norm_carried_by_last). FOURTH EXTENSION: the GENERAL orthogonalize(mu) on tensors with "
+         "Tucker factors on any subset of modes (Model/OrthFull: _cp_to_tt, factor_orthogonalize + left QR for i < mu, the same from the end for "
+         "i > mu): orthogonalize_mu_dense (tensor unchanged), orthogonalize_mu_gauge (left / right orthonormal unfoldings on either side of mu), "
+         "orthogonalize_mu_factors (the Tucker factor of EVERY other mode has orthonormal columns), orthogonalize_mu_shape; battery c13_orth_full "
+         "replays every recorded QR answer through the compiled model and compares cores and factors entry by entry. The model is fed with the QR answers recorded in-process from torch.linalg.qr and reproduces the implementation's "
          "cores; the contracts are validated numerically on every recorded call; gauge, invariance, norm identity and histories of "
          "orthogonalisations are checked by Gram-matrix / dense oracles.",
     note="Trusted: Lean kernel + standard axioms; torch.linalg.qr (contract Q·R=A, QᵀQ=I assumed, validated per run); harness glue; "
-         "sampling. The sweep-level theorems are for mu = N-1 on TT cores (the left sweep); the right sweep (mu < N-1), factor "
-         "steps inside the sweep and histories of orthogonalisations about different cores are compositions of the proved steps checked "
-         "by the oracle.",
+         "sampling. Not yet proved: the norm clause for general mu (orthogonalize_mu_norm, kept as a NOT YET PROVED block; proved for mu = N-1 "
+         "as norm_carried_by_last) — checked by the oracle; histories of orthogonalisations about different cores are compositions of the proved "
+         "routine checked by the oracle.",
     tech="Lean 4 proof modulo the QR kernel contract (L4) + kernel-recording correspondence + Gram/dense oracles",
     ref="§3 C13"),
  "C07": dict(
@@ -206,6 +212,8 @@ CHECKS = {
          'mask(u)·varcomp(u) / Σ_u varcomp(u)), total_variance, varcomp_eq_term_variance; over an ordered field varcomp ≥ 0, '
          'sobol_mem_unit (0/1 and [0,1]-valued masks give indices in [0,1]), sobol_mono (pointwise larger mask, larger index: '
          'total ≥ closed ≥ variance component), dimension_distribution_sum (sums to 1), mean_dimension_eq_sum (= Σ_k k·dist(k)), '
+         'FOURTH EXTENSION: the mask branch of dimension_distribution (Model/DimDistMask): dimension_distribution_mask_eq (entry k = Σ_{|u|=k} M(u)·D_u / '
+         'Σ_u M(u)·D_u, both under the same marginals), …_mask_eq_zero_one, …_mask_sum (sums to 1 when the denominator is non-zero); battery c09_dimdist_mask; '
          'mean_dimension_ge_one. The three routines are compared with /repo and with a dense oracle by a correspondence battery '
          '(c09_sobol.py); N-th roots / reciprocals are kernel answers with algebraic contracts.',
     note='Trusted: Lean kernel + standard axioms; harness glue; NumPy brute-force oracle; sampling. Not modelled: the mask= '
